@@ -19,7 +19,19 @@
      - a protocol version is v<a>.<b>.<c>;  Work and Currency are decimal;
      - policy strings:  above(n) after(n) pk(0x..) h(0x..) opaque(0x..)
        thresh(n,[p,...])  uc(timelock,[key,...],sigs).
-   Numbers that may exceed 2^31 are BigNat limb sequences (base 2^15).        *)
+   Numbers that may exceed 2^31 are BigNat limb sequences (base 2^15).
+
+   LIMITS (section "limits" below).  The text and JSON forms are one of several
+   codecs of the same values; the others (the binary codec, the Go type itself)
+   bound what a value can be: a policy may sit under at most 32 thresholds, a
+   threshold counts its children in one byte, a currency has 128 bits, a
+   timestamp is a 64-bit Unix second.  The agreement clause of this
+   specification: EVERY VALUE THE BINARY CODEC ROUND-TRIPS HAS A TEXT FORM (AND A
+   JSON FORM) THAT PARSES BACK TO IT, in every printed form the type offers.
+   One step beyond a limit a form may refuse, but it may not return a
+   different value.  LimitCases enumerates the extreme values (as compact
+   descriptors; the harness builds them at their real size and TextTrace checks
+   with Realises that what was built is what was described).                 *)
 EXTENDS Integers, Sequences, BigNat
 
 \* ---------------------------------------------------------------------------
@@ -70,10 +82,16 @@ NBytes(kind) == IF kind = "Signature" THEN 64 ELSE 32
 Prefix(kind) == IF kind \in PrefixedKinds THEN L_ed25519 ELSE <<>>
 
 \* ---------------------------------------------------------------------------
-\* specifiers.  The quoting alphabet of this specification: ASCII, and bytes that
-\* can never start a valid UTF-8 sequence when no lead byte 0xC2..0xF4 is present
-\* (continuation bytes, 0xC0, 0xC1, 0xF5..0xFF): each such byte is escaped alone.
-InSpecAlphabet(bs) == \A i \in DOMAIN bs : bs[i] \in 0..193 \/ bs[i] \in 245..255
+\* specifiers.  The quoting alphabet of this specification: ASCII, bytes that can
+\* never start a valid UTF-8 sequence (continuation bytes without a lead byte, 0xC0,
+\* 0xC1, 0xF5..0xFF) and lead bytes 0xC2..0xF4 that are NOT followed by a continuation
+\* byte (a truncated sequence): each such byte is escaped alone.  Byte strings that
+\* contain a lead byte followed by a continuation byte may be valid UTF-8 text, whose
+\* quoted layout is not stated here: such specifiers are round-tripped only
+\* (documented restriction; trace lines carry layout = FALSE for them).
+IsCont(b) == b \in 128..191
+IsLead(b) == b \in 194..244
+InSpecAlphabet(bs) == \A i \in DOMAIN bs : IsLead(bs[i]) => (i = Len(bs) \/ ~IsCont(bs[i + 1]))
 RECURSIVE Trim0(_)
 Trim0(bs) == IF Len(bs) > 0 /\ bs[Len(bs)] = 0 THEN Trim0(SubSeq(bs, 1, Len(bs) - 1)) ELSE bs
 EscByte(b) ==
@@ -109,11 +127,12 @@ PrintID(kind, v) ==
     [] kind = "Work"          -> Dec(v.n)
     [] kind = "Currency"      -> Dec(v.n)
 
-WellFormedID(kind, v) ==
+\* strict: the value also lies in the domain for which the LAYOUT is stated (quoting alphabet)
+WellFormedID(kind, v, strict) ==
   CASE kind \in HashKinds \/ kind = "Signature" \/ kind \in PrefixedKinds -> Len(v.b) = NBytes(kind) /\ IsBytes(v.b)
     [] kind = "Address"   -> Len(v.b) = 32 /\ Len(v.ck) = 6 /\ IsBytes(v.b) /\ IsBytes(v.ck)
-    [] kind = "Specifier" -> Len(v.b) = 16 /\ IsBytes(v.b) /\ InSpecAlphabet(v.b)
-    [] kind = "UnlockKey" -> Len(v.alg) = 16 /\ IsBytes(v.alg) /\ InSpecAlphabet(v.alg) /\ IsBytes(v.key)
+    [] kind = "Specifier" -> Len(v.b) = 16 /\ IsBytes(v.b) /\ (strict => InSpecAlphabet(v.b))
+    [] kind = "UnlockKey" -> Len(v.alg) = 16 /\ IsBytes(v.alg) /\ (strict => InSpecAlphabet(v.alg)) /\ IsBytes(v.key)
     [] kind = "ChainIndex" -> IsNat(v.h) /\ Lt(v.h, Pow2(64)) /\ Len(v.id) = 32 /\ IsBytes(v.id)
     [] kind = "ProtocolVersion" -> Len(v.v) = 3 /\ IsBytes(v.v)
     [] kind = "Work"      -> IsNat(v.n) /\ Lt(v.n, Pow2(256))
@@ -122,9 +141,12 @@ WellFormedID(kind, v) ==
 \* ---------------------------------------------------------------------------
 \* policy strings.  A policy is a record with k in
 \*   above[n]  after[neg,n]  pk[b]  h[b]  opaque[b]  thresh[n (int), of]  uc[tl, keys[alg,key], sr]
-RECURSIVE Join(_)
-Join(ts) == IF ts = <<>> THEN <<>>
-            ELSE IF Len(ts) = 1 THEN ts[1] ELSE ts[1] \o <<COMMA>> \o Join(Tail(ts))
+\* ts[lo] , ts[lo+1] , ... , ts[hi]   (balanced, so that 255 children or 1024 keys stay cheap)
+RECURSIVE JoinR(_, _, _)
+JoinR(ts, lo, hi) == IF lo > hi THEN <<>>
+                     ELSE IF lo = hi THEN ts[lo]
+                     ELSE LET mid == (lo + hi) \div 2 IN JoinR(ts, lo, mid) \o <<COMMA>> \o JoinR(ts, mid + 1, hi)
+Join(ts) == JoinR(ts, 1, Len(ts))
 Call(name, arg) == name \o <<LP>> \o arg \o <<RP>>
 RECURSIVE PolText(_)
 PolText(p) ==
@@ -138,19 +160,23 @@ PolText(p) ==
     [] p.k = "uc"     -> Call(L_uc, Dec(p.tl) \o <<COMMA, LB>>
                               \o Join([i \in DOMAIN p.keys |-> UnlockKeyText(p.keys[i].alg, p.keys[i].key)])
                               \o <<RB, COMMA>> \o Dec(p.sr))
-RECURSIVE WellFormedPol(_)
-WellFormedPol(p) ==
+\* a Unix second as carried by the binary form: sign and magnitude, -2^63 .. 2^63-1
+IsUnix64(neg, n) == /\ IsNat(n) /\ (neg => n # <<>>)
+                    /\ IF neg THEN Le(n, Pow2(63)) ELSE Lt(n, Pow2(63))
+RECURSIVE WellFormedPol(_, _)
+WellFormedPol(p, strict) ==
   CASE p.k = "above"  -> IsNat(p.n) /\ Lt(p.n, Pow2(64))
-    [] p.k = "after"  -> IsNat(p.n) /\ Lt(p.n, Pow2(63)) /\ (p.neg => p.n # <<>>)
+    [] p.k = "after"  -> IsUnix64(p.neg, p.n)
     [] p.k \in {"pk", "h", "opaque"} -> Len(p.b) = 32 /\ IsBytes(p.b)
-    [] p.k = "thresh" -> p.n \in 0..255 /\ \A i \in DOMAIN p.of : WellFormedPol(p.of[i])
+    [] p.k = "thresh" -> p.n \in 0..255 /\ \A i \in DOMAIN p.of : WellFormedPol(p.of[i], strict)
     [] p.k = "uc"     -> /\ IsNat(p.tl) /\ Lt(p.tl, Pow2(64)) /\ IsNat(p.sr) /\ Lt(p.sr, Pow2(64))
                          /\ \A i \in DOMAIN p.keys : /\ Len(p.keys[i].alg) = 16 /\ IsBytes(p.keys[i].alg)
-                                                     /\ InSpecAlphabet(p.keys[i].alg) /\ IsBytes(p.keys[i].key)
+                                                     /\ (strict => InSpecAlphabet(p.keys[i].alg)) /\ IsBytes(p.keys[i].key)
     [] OTHER -> FALSE
 
 TextOf(kind, v)     == IF kind = "SpendPolicy" THEN PolText(v) ELSE PrintID(kind, v)
-WellFormed(kind, v) == IF kind = "SpendPolicy" THEN WellFormedPol(v) ELSE WellFormedID(kind, v)
+WellFormedS(kind, v, strict) == IF kind = "SpendPolicy" THEN WellFormedPol(v, strict) ELSE WellFormedID(kind, v, strict)
+WellFormed(kind, v) == WellFormedS(kind, v, TRUE)
 
 \* the JSON string carrying a text form (Go escapes the HTML characters as well);
 \* the text forms above never contain raw control characters
@@ -159,8 +185,11 @@ JSONChar(c) ==
     [] c = BSL   -> <<BSL, BSL>>
     [] c \in {60, 62, 38} -> <<BSL, 117, 48, 48, HexDigit(c \div 16), HexDigit(c % 16)>>
     [] OTHER -> <<c>>
-RECURSIVE JSONBody(_)
-JSONBody(s) == IF s = <<>> THEN <<>> ELSE JSONChar(Head(s)) \o JSONBody(Tail(s))
+RECURSIVE JSONBodyR(_, _, _)
+JSONBodyR(s, lo, hi) == IF lo > hi THEN <<>>
+                        ELSE IF lo = hi THEN JSONChar(s[lo])
+                        ELSE LET mid == (lo + hi) \div 2 IN JSONBodyR(s, lo, mid) \o JSONBodyR(s, mid + 1, hi)
+JSONBody(s) == JSONBodyR(s, 1, Len(s))
 JSONString(s) == <<QUOTE>> \o JSONBody(s) \o <<QUOTE>>
 \* kinds whose JSON form is the quoted text form
 TextJSONKinds == HashKinds \cup PrefixedKinds \cup
@@ -226,4 +255,212 @@ Insert(s, i, c) == SubSeq(s, 1, i - 1) \o <<c>> \o SubSeq(s, i, Len(s))     \* c
 Delete(s, i)    == SubSeq(s, 1, i - 1) \o SubSeq(s, i + 1, Len(s))
 Swap(s, i)      == [s EXCEPT ![i] = s[i + 1], ![i + 1] = s[i]]
 CaseVariant(orig, s) == s # orig /\ LowerSeq(s) = LowerSeq(orig)
+
+\* ---------------------------------------------------------------------------
+\* LIMITS: what the other codecs and the types admit, the values at those limits,
+\* and the agreement clause.
+\*
+\*  policies    the binary form accepts a policy under at most MaxPolicyDepth
+\*              thresholds (the root is under 0) and counts the children of a
+\*              threshold in one byte.  The string form and the JSON object form
+\*              must therefore round-trip every policy of depth <= 32 and of up to
+\*              255 children per threshold.  DOCUMENTED RESTRICTION (a limit the
+\*              forms do not share): the string and JSON forms have no bound of
+\*              their own, so beyond the binary limits (depth 33, 256 children)
+\*              they may accept or refuse -- but never yield a different value.
+\*  unlock keys a key list and a key have no bound of their own in any form
+\*              (64-bit length prefix); representative large sizes are used.
+\*  currencies  128 bits, in EVERY printed form: the unit form of String / %s / %v,
+\*              the exact decimal of ExactString / %d / MarshalText, and JSON.
+\*  timestamps  the binary form carries a 64-bit Unix second; policy strings and
+\*              policy JSON print that integer, so all of -2^63 .. 2^63-1 round-trip;
+\*              RFC 3339 JSON (block timestamps, price validity, ...) can print
+\*              years 0..9999 only: inside that range it must round-trip, outside it
+\*              must refuse (DOCUMENTED RESTRICTION named by the property).
+MaxPolicyDepth    == 32
+MaxThreshChildren == 255
+MaxOf(S) == CHOOSE m \in S : \A x \in S : x <= m
+RECURSIVE PolDepth(_)
+\* the number of thresholds above the deepest sub-policy
+PolDepth(p) == IF p.k = "thresh" /\ Len(p.of) > 0
+               THEN 1 + MaxOf({PolDepth(p.of[i]) : i \in DOMAIN p.of}) ELSE 0
+RECURSIVE PolWidthOK(_)
+PolWidthOK(p) == p.k = "thresh" => /\ Len(p.of) <= MaxThreshChildren
+                                   /\ \A i \in DOMAIN p.of : PolWidthOK(p.of[i])
+BinaryAdmitsPol(p) == PolDepth(p) <= MaxPolicyDepth /\ PolWidthOK(p)
+\* v (well-formed, of the given kind) is a value the binary codec round-trips
+Admitted(kind, v) == IF kind = "SpendPolicy" THEN BinaryAdmitsPol(v) ELSE TRUE
+\* AGREEMENT: every value the binary codec round-trips has a text form and a JSON form
+\* that parse back to it; a value it does not admit is refused or returned unchanged.
+\* (parsed = the parser accepted, same = what it returned is the value under Equiv.)
+Agrees(admitted, parsed, same) == IF admitted THEN parsed /\ same ELSE parsed => same
+
+\* ---- currencies: every printed form ------------------------------------------
+MaxCurrency == Sub(Pow2(128), One)
+RECURSIVE Pow10(_)
+Pow10(k) == IF k = 0 THEN One ELSE MulSmall(Pow10(k - 1), 10)
+UnitNames == << <<112, 83>>, <<110, 83>>, <<117, 83>>, <<109, 83>>, <<83, 67>>,
+                <<75, 83>>, <<77, 83>>, <<71, 83>>, <<84, 83>> >>          \* pS nS uS mS SC KS MS GS TS
+RECURSIVE TrimZeros(_)
+TrimZeros(ds) == IF Len(ds) > 0 /\ ds[Len(ds)] = 0 THEN TrimZeros(SubSeq(ds, 1, Len(ds) - 1)) ELSE ds
+DigitChars(ds) == [i \in DOMAIN ds |-> 48 + ds[i]]
+\* the unit form: below 10^12 hastings "<n> H"; otherwise the value as a decimal multiple of
+\* the largest unit 10^(3u) H, u = 4..12 (pS .. TS), that does not exceed it, the fraction
+\* printed exactly and without trailing zeros; zero is "0 SC".
+CurUnitText(n) ==
+  IF n = <<>> THEN <<48, 32, 83, 67>>
+  ELSE LET ds == Digits(n)  len == Len(ds)  u0 == (len - 1) \div 3 IN
+       IF u0 < 4 THEN DigitChars(ds) \o <<32, 72>>
+       ELSE LET u == IF u0 > 12 THEN 12 ELSE u0
+                k == len - 3 * u
+                frac == TrimZeros(SubSeq(ds, k + 1, len)) IN
+            DigitChars(SubSeq(ds, 1, k)) \o (IF frac = <<>> THEN <<>> ELSE <<DOT>> \o DigitChars(frac))
+              \o <<32>> \o UnitNames[u - 3]
+UnitForms  == {"String", "%s", "%v"}
+ExactForms == {"ExactString", "%d", "MarshalText"}
+CurForms   == UnitForms \cup ExactForms \cup {"JSON"}
+CurFormText(f, n) == IF f \in UnitForms THEN CurUnitText(n)
+                     ELSE IF f = "JSON" THEN JSONString(Dec(n)) ELSE Dec(n)
+\* the entry points that must accept a printed form (JSON: the document; the others: the text)
+CurEntries(f) == IF f = "JSON" THEN {"json.Unmarshal"} ELSE {"ParseCurrency", "UnmarshalText"}
+
+\* the accepted language of ParseCurrency as far as the printed forms need it, and what a
+\* text denotes:  <digits> | <digits>[.<digits>] SP <unit>  ->  digits * 10^(exponent of the unit)
+FirstIndex(s, c) == IF \E i \in DOMAIN s : s[i] = c
+                    THEN CHOOSE i \in DOMAIN s : s[i] = c /\ \A j \in 1..(i - 1) : s[j] # c ELSE 0
+UnitExp(u) == IF u = <<72>> THEN 0
+              ELSE IF \E i \in DOMAIN UnitNames : UnitNames[i] = u
+                   THEN 3 * (3 + (CHOOSE i \in DOMAIN UnitNames : UnitNames[i] = u)) ELSE -1
+AllDigits(s) == Len(s) > 0 /\ \A i \in DOMAIN s : IsDigit(s[i])
+CurParts(s) == LET sp  == FirstIndex(s, 32)
+                   num == IF sp = 0 THEN s ELSE SubSeq(s, 1, sp - 1)
+                   dot == FirstIndex(num, DOT) IN
+               [ip  |-> IF dot = 0 THEN num ELSE SubSeq(num, 1, dot - 1),
+                fp  |-> IF dot = 0 THEN <<>> ELSE SubSeq(num, dot + 1, Len(num)),
+                dot |-> dot # 0,
+                exp |-> IF sp = 0 THEN 0 ELSE UnitExp(SubSeq(s, sp + 1, Len(s)))]
+\* in the language of the printed forms, denoting a whole number of hastings
+CurWellFormedText(s) == LET p == CurParts(s) IN
+  /\ AllDigits(p.ip) /\ (p.dot => AllDigits(p.fp)) /\ p.exp >= 0 /\ Len(p.fp) <= p.exp
+CurDenotes(s) == LET p == CurParts(s)  ds == p.ip \o p.fp IN
+  Mul(FromDigits([i \in DOMAIN ds |-> ds[i] - 48]), Pow10(p.exp - Len(p.fp)))
+\* accepted: well-formed and below 2^128
+CurAccepts(s) == CurWellFormedText(s) /\ Lt(CurDenotes(s), Pow2(128))
+
+\* ---- timestamps -----------------------------------------------------------
+Unix(neg, n) == [neg |-> neg, n |-> n]
+UnixLe(a, b) == IF a.neg /\ ~b.neg THEN TRUE
+                ELSE IF ~a.neg /\ b.neg THEN FALSE
+                ELSE IF a.neg THEN Le(b.n, a.n) ELSE Le(a.n, b.n)
+MinJSONUnix == Unix(TRUE,  FromDigits(<<6, 2, 1, 6, 7, 2, 1, 9, 2, 0, 0>>))       \* 0000-01-01T00:00:00Z
+MaxJSONUnix == Unix(FALSE, FromDigits(<<2, 5, 3, 4, 0, 2, 3, 0, 0, 7, 9, 9>>))    \* 9999-12-31T23:59:59Z
+MinUnix64   == Unix(TRUE,  Pow2(63))
+MaxUnix64   == Unix(FALSE, Sub(Pow2(63), One))
+InJSONYears(t) == UnixLe(MinJSONUnix, t) /\ UnixLe(t, MaxJSONUnix)
+UnixText(t) == (IF t.neg THEN <<MINUS>> ELSE <<>>) \o Dec(t.n)
+L_afterJSON == <<123, 34, 116, 121, 112, 101, 34, 58, 34, 97, 102, 116, 101, 114, 34, 44, 34, 112, 111,
+                 108, 105, 99, 121, 34, 58>>                                 \* {"type":"after","policy":
+\* forms of a timestamp: the three forms of an after() policy, and the RFC 3339 string of a
+\* JSON document (per carrier type)
+AfterForms == {"after-string", "after-json", "after-binary"}
+TimeForms  == AfterForms \cup {"rfc3339"}
+\* the RFC 3339 text of the named edges (the layout of the others is Go's time package, trusted)
+TimeLiterals ==
+  << [t |-> MinJSONUnix, s |-> <<48, 48, 48, 48, 45, 48, 49, 45, 48, 49, 84, 48, 48, 58, 48, 48, 58, 48, 48, 90>>],
+     [t |-> MaxJSONUnix, s |-> <<57, 57, 57, 57, 45, 49, 50, 45, 51, 49, 84, 50, 51, 58, 53, 57, 58, 53, 57, 90>>],
+     [t |-> Unix(FALSE, Zero), s |-> <<49, 57, 55, 48, 45, 48, 49, 45, 48, 49, 84, 48, 48, 58, 48, 48, 58, 48, 48, 90>>],
+     [t |-> Unix(TRUE, One),   s |-> <<49, 57, 54, 57, 45, 49, 50, 45, 51, 49, 84, 50, 51, 58, 53, 57, 58, 53, 57, 90>>] >>
+TimeFormOK(f, t, text) ==
+  CASE f = "after-string" -> text = Call(L_after, UnixText(t))
+    [] f = "after-json"   -> text = L_afterJSON \o UnixText(t) \o <<125>>
+    [] f = "rfc3339"      -> \A i \in DOMAIN TimeLiterals : TimeLiterals[i].t = t => text = TimeLiterals[i].s
+    [] OTHER -> TRUE
+\* which timestamps a form must round-trip
+TimeAdmitted(f, t) == IF f = "rfc3339" THEN InJSONYears(t) ELSE TRUE
+
+\* ---- the values at the limits ------------------------------------------------
+\* compact descriptors; the harness builds the value at its real size, the real code prints
+\* and parses it in every form, and TextTrace checks Realises(descriptor, value).
+\*   nest      a policy under a thresholds (b children per threshold), leaf kind s
+\*   wide      a threshold with a children of kind s and required count b
+\*   keys      an unlock-conditions policy with a keys of b bytes each, n signatures required
+\*   keylen    an unlock key of a bytes; algorithm class s
+\*   specbyte  a specifier made of byte a in pattern b (see SpecPattern)
+\*   currency  the currency n;   time  the Unix second (a = 1: negative) n
+\*   beyond    the text t, one step outside the accepted language of kind s: must be refused
+\* within: the value is one the binary codec round-trips (time: one RFC 3339 JSON can print).
+D(fam, a, b, s, n, t, within) == [fam |-> fam, a |-> a, b |-> b, s |-> s, n |-> n, t |-> t, within |-> within]
+NoLimit == D("none", 0, 0, "", <<>>, <<>>, TRUE)
+LeafKinds == {"above", "after", "pk", "h", "opaque", "uc", "thresh"}
+NestCases == {D("nest", d, w, l, <<>>, <<>>, d <= MaxPolicyDepth) :
+                d \in {1, 2, MaxPolicyDepth - 1, MaxPolicyDepth, MaxPolicyDepth + 1}, w \in {1, 3}, l \in LeafKinds}
+             \cup {D("nest", 0, 1, l, <<>>, <<>>, TRUE) : l \in LeafKinds}
+WideCases == {D("wide", c, nn, k, <<>>, <<>>, c <= MaxThreshChildren) :
+                c \in {0, 1, MaxThreshChildren, MaxThreshChildren + 1}, nn \in {0, 255}, k \in {"pk", "above", "uc"}}
+             \cup {D("wide", c, 1, "pk", <<>>, <<>>, TRUE) : c \in {1, 2, MaxThreshChildren - 1}}
+Max64 == Sub(Pow2(64), One)
+KeysCases == {D("keys", c, kl, "", sr, <<>>, TRUE) : c \in {0, 1, 255, 256, 1024}, kl \in {0, 32}, sr \in {Zero, Max64}}
+             \cup {D("keys", 1, 32, "", sr, <<>>, TRUE) : sr \in {One, FromInt(255), FromInt(256)}}
+KeyLenCases == {D("keylen", l, 0, alg, <<>>, <<>>, TRUE) :
+                  l \in {0, 1, 31, 32, 33, 64, 255, 256, 4096}, alg \in {"plain", "quoted"}}
+               \cup {D("keylen", 65535, 0, "plain", <<>>, <<>>, TRUE)}
+L_algPlain  == <<101, 100, 50, 53, 53, 49, 57>>              \* ed25519
+L_algQuoted == <<97, 58, 98, 34, 40, 44, 41, 91, 93>>        \* a:b"(,)[]   separator, quote and every policy delimiter
+Pad16(bs) == bs \o [i \in 1..(16 - Len(bs)) |-> 0]
+SpecPattern(x, pat) ==
+  CASE pat = 1 -> <<x>>
+    [] pat = 2 -> <<97, x>>
+    [] pat = 3 -> <<x, 97>>
+    [] pat = 4 -> [i \in 1..16 |-> x]
+    [] pat = 5 -> <<x, 128>>            \* followed by a continuation byte (valid UTF-8 when x is a two-byte lead)
+SpecByteCases == {D("specbyte", x, pat, "", <<>>, <<>>, TRUE) : x \in 0..255, pat \in 1..5}
+CurLimits == {Zero, One, MaxCurrency, Sub(MaxCurrency, One), Pow2(64), Max64, Pow2(127),
+              MulSmall(DivSmall(MaxCurrency, 10), 10)}            \* 39 digits ending in 0
+             \cup UNION {{Sub(Pow10(e), One), Pow10(e), Add(Pow10(e), One)} : e \in 0..38}
+CurrencyCases == {D("currency", 0, 0, "", n, <<>>, TRUE) : n \in CurLimits}
+TimeLimits == {Unix(FALSE, Zero), Unix(FALSE, One), Unix(TRUE, One),
+               MinJSONUnix, Unix(TRUE, Add(MinJSONUnix.n, One)), Unix(TRUE, Sub(MinJSONUnix.n, One)),
+               MaxJSONUnix, Unix(FALSE, Add(MaxJSONUnix.n, One)), Unix(FALSE, Sub(MaxJSONUnix.n, One)),
+               MinUnix64, Unix(TRUE, Sub(Pow2(63), One)), MaxUnix64,
+               Unix(FALSE, Pow2(31)), Unix(FALSE, Pow2(32)), Unix(FALSE, Add(Pow2(53), One))}
+TimeCases == {D("time", IF t.neg THEN 1 ELSE 0, 0, "", t.n, <<>>, InJSONYears(t)) : t \in TimeLimits}
+TwoPow63Text == Dec(Pow2(63))
+TwoPow64Text == Dec(Pow2(64))
+BeyondTexts ==
+  << [s |-> "Currency",    t |-> Dec(Pow2(128))],                             \* 2^128, exact form
+     [s |-> "Currency",    t |-> CurUnitText(Pow2(128))],                     \* 2^128, unit form
+     [s |-> "Currency",    t |-> Dec(MaxCurrency) \o <<48>>],                 \* forty digits
+     [s |-> "Currency",    t |-> CurUnitText(Mul(MaxCurrency, FromInt(1000)))], \* 340282.366... TS
+     [s |-> "SpendPolicy", t |-> Call(L_thresh, <<50, 53, 54, COMMA, LB, RB>>)],  \* thresh(256,[])
+     [s |-> "SpendPolicy", t |-> Call(L_above, TwoPow64Text)],
+     [s |-> "SpendPolicy", t |-> Call(L_after, TwoPow63Text)],
+     [s |-> "SpendPolicy", t |-> Call(L_after, <<MINUS>> \o Dec(Add(Pow2(63), One)))],
+     [s |-> "SpendPolicy", t |-> Call(L_uc, TwoPow64Text \o <<COMMA, LB, RB, COMMA, 48>>)],
+     [s |-> "SpendPolicy", t |-> Call(L_uc, <<48, COMMA, LB, RB, COMMA>> \o TwoPow64Text)],
+     [s |-> "ChainIndex",  t |-> TwoPow64Text \o <<COLON, COLON>> \o HexOf([i \in 1..32 |-> 0])],
+     [s |-> "Work",        t |-> Dec(Pow2(256))] >>
+BeyondCases == {D("beyond", i, 0, BeyondTexts[i].s, <<>>, BeyondTexts[i].t, FALSE) : i \in DOMAIN BeyondTexts}
+LimitCases == NestCases \cup WideCases \cup KeysCases \cup KeyLenCases \cup SpecByteCases
+              \cup CurrencyCases \cup TimeCases \cup BeyondCases
+
+\* the value v of the given kind is the one descriptor d describes
+Realises(d, kind, v) ==
+  CASE d.fam = "none" -> TRUE
+    [] d.fam = "nest" -> /\ kind = "SpendPolicy" /\ PolDepth(v) = d.a
+                         /\ (d.a > 0 => Len(v.of) = d.b) /\ (d.a = 0 => v.k = d.s)
+    [] d.fam = "wide" -> /\ kind = "SpendPolicy" /\ v.k = "thresh" /\ Len(v.of) = d.a /\ v.n = d.b
+                         /\ \A i \in DOMAIN v.of : v.of[i].k = d.s
+    [] d.fam = "keys" -> /\ kind = "SpendPolicy" /\ v.k = "uc" /\ Len(v.keys) = d.a /\ v.sr = d.n
+                         /\ \A i \in DOMAIN v.keys : Len(v.keys[i].key) = d.b
+    [] d.fam = "keylen" -> /\ kind = "UnlockKey" /\ Len(v.key) = d.a
+                           /\ v.alg = Pad16(IF d.s = "plain" THEN L_algPlain ELSE L_algQuoted)
+    [] d.fam = "specbyte" ->
+         LET want == Pad16(SpecPattern(d.a, d.b)) IN
+         CASE kind = "Specifier"   -> v.b = want
+           [] kind = "UnlockKey"   -> v.alg = want
+           [] kind = "SpendPolicy" -> v.k = "uc" /\ Len(v.keys) = 1 /\ v.keys[1].alg = want
+           [] OTHER -> FALSE
+    [] d.fam = "currency" -> kind = "Currency" /\ v.n = d.n
+    [] d.fam = "time" -> kind = "Time" /\ v.neg = (d.a = 1) /\ v.n = d.n
+    [] OTHER -> FALSE
 =============================================================================
